@@ -19,7 +19,8 @@ U32s == {<<0>>, <<1>>, <<127>>, Digits(128), Digits(16383), Digits(16384), Digit
          Digits(2097151), Digits(2097152), Digits(268435455), Digits(268435456), Pow2_32m1}
 \* key / value lengths a record of the harness really gets (record mode)
 KLens == {1, 127, 128, 16383, 16384, 65000, 65536, 65537}
-VLens == {0, 1, 127, 128, 16383, 16384, 2097152}
+\* (32767: with a 1-byte key the payload is exactly 32 KiB, with any longer key it crosses that chunk size)
+VLens == IF Full THEN {0, 1, 127, 128, 16383, 16384, 32767, 2097152} ELSE {0, 1, 127, 128, 16383, 16384, 2097152}
 \* record offsets: first record, byte/word boundaries, and the top of the 32-bit range where the
 \* AES-CTR counter (IV = baseIV || offset) carries into the base IV
 Offsets == IF Full THEN {Digits(20), Digits(255), Digits(256), Digits(65535), Digits(65536),
